@@ -177,6 +177,39 @@ theorem c11_apply_only_validated (crc : Bytes → UInt32) (rt : RtView) (bytes :
       | error e => simp [hv, hm] at h
       | ok md => exact ⟨m, md, rfl, hv, hm⟩
 
+/-! ## the encoder's rollback (abstract emitter) -/
+
+/-- **Rollback invariant of the bytecode encoder** (codegen.rs: a statement that cannot be encoded is
+replaced by a NOP).  Whatever was pushed and appended since the snapshot — code and, through nested
+statements, debug entries — truncating BOTH to the snapshot's lengths restores the snapshot exactly;
+and the emitter invariant "every debug entry points into the code, entries are in emission order"
+holds initially and is preserved by pushing a debug entry, by appending code, and therefore by a
+rollback.  This is what keeps "every container the compiler emits validates" true for programs
+with statements the encoder cannot express. -/
+theorem c11_emitter_rollback (e s : Emitter) (h : e.Extends s) (hs : s.Inv) :
+    e.rollback s.code.length s.debug.length = s ∧ (e.rollback s.code.length s.debug.length).Inv ∧
+    ({} : Emitter).Inv ∧ (∀ x : Emitter, x.Inv → x.pushDebug.Inv ∧ ∀ bs, (x.emitBytes bs).Inv) := by
+  have hr := Emitter.rollback_restores e s h
+  exact ⟨hr, by rw [hr]; exact hs, Emitter.inv_empty,
+    fun x hx => ⟨Emitter.inv_pushDebug hx, fun bs => Emitter.inv_emitBytes bs hx⟩⟩
+
+/-- **Truncating only the code breaks the invariant** (the shape of a REPEAT whose UNTIL cannot be
+emitted after its two-statement body was): the surviving debug entries point behind the code. -/
+theorem c11_emitter_rollback_counterexample :
+    let s : Emitter := { code := [0x10], debug := [0] }
+    let e := (((s.pushDebug.emitBytes [0x20, 0, 0, 0, 0]).pushDebug).emitBytes [0x21, 0, 0, 0, 0])
+    s.Inv ∧ e.Extends s ∧ e.Inv ∧ ¬ (e.rollbackCodeOnly s.code.length).Inv := by
+  refine ⟨?_, ?_, ?_, ?_⟩
+  · exact ⟨by decide, by decide⟩
+  · exact ⟨⟨[0x20, 0, 0, 0, 0, 0x21, 0, 0, 0, 0], by rfl⟩, ⟨[1, 6], by rfl⟩⟩
+  · exact ⟨by decide, by decide⟩
+  · intro h
+    have := h.1 6 (by decide)
+    revert this
+    decide
+
+example : ∃ e s : Emitter, e.Extends s ∧ s.Inv := ⟨{}, {}, Emitter.extends_refl _, Emitter.inv_empty⟩
+
 /-! ## non-vacuity: the hypotheses of the theorems above are satisfiable -/
 
 example : (exModule 0).wf = true := by rfl
